@@ -1,3 +1,4 @@
+import LimeModel.Generated
 import LimeModel.Basic
 /-!
 # M5: the high-level client and the unrequested loss of its session
@@ -24,17 +25,31 @@ structure CL where
 
 def CL.channelOK (s : CL) : Bool := s.established && s.connected
 
+/-- which of the two repairs of the receiver the code has: it closes the transport on a receive
+error (`onError`), and on a session envelope that leaves the client established (`onOdd`) -/
+structure Fix where
+  onError : Bool
+  onOdd : Bool
+  deriving DecidableEq, Repr
+
+def Fix.all : Fix := ⟨true, true⟩
+def Fix.none : Fix := ⟨false, false⟩
+@[simp] theorem Fix.all_onError : Fix.all.onError = true := rfl
+@[simp] theorem Fix.all_onOdd : Fix.all.onOdd = true := rfl
+@[simp] theorem Fix.none_onError : Fix.none.onError = false := rfl
+@[simp] theorem Fix.none_onOdd : Fix.none.onOdd = false := rfl
+
 /-- what a fault does to the client's channel -/
-def fault (fixed : Bool) (s : CL) : Fault → CL
+def fault (fixed : Fix) (s : CL) : Fault → CL
   | .srvFinish | .srvFail =>            -- the receiver hands the session envelope over and adopts its state
     { s with established := false, receiverAlive := false }
   | .drop | .halfClose =>               -- the receiver reads EOF: the transport marks itself disconnected
     { s with connected := false, receiverAlive := false }
   | .garbage | .notEnvelope | .oversize =>   -- the receiver gets another error
-    if fixed then { s with connected := false, receiverAlive := false }   -- and closes the transport
+    if fixed.onError then { s with connected := false, receiverAlive := false }   -- and closes the transport
     else { s with receiverAlive := false }
   | .oddSession =>          -- a session envelope that ends nothing: the receiver hands it over and stops
-    if fixed then { s with connected := false, receiverAlive := false }   -- ... closing the transport
+    if fixed.onOdd then { s with connected := false, receiverAlive := false }   -- ... closing the transport
     else { s with receiverAlive := false }
 
 /-- `getOrBuildChannel` (the server is reachable): reuse, or build a fresh established channel -/
@@ -53,13 +68,15 @@ def CL.wedged (s : CL) : Bool := s.channelOK && !s.receiverAlive
 inductive Op | fault (f : Fault) | send | listen
   deriving DecidableEq, Repr
 
-def step (fixed : Bool) (s : CL) : Op → CL
+def step (fixed : Fix) (s : CL) : Op → CL
   | .fault f => fault fixed s f
   | .send => getOrBuild s
   | .listen => (listenerIter s).2
 
-def run (fixed : Bool) (ops : List Op) : CL := ops.foldl (step fixed) {}
+def run (fixed : Fix) (ops : List Op) : CL := ops.foldl (step fixed) {}
 
-def repaired : Bool := true
+/-- which variant the code is, read from the source on this run: the receiver closes the transport
+on a receive error and on a session envelope that leaves the client established -/
+def repaired : Fix := ⟨Generated.receiverClosesOnError, Generated.receiverClosesOnOddSession⟩
 
 end LimeModel.ClientLife
